@@ -7,6 +7,7 @@
 mod cache;
 mod chan;
 mod core;
+mod ioc;
 mod lock;
 mod registry;
 
